@@ -11,7 +11,7 @@ TRUSTED = [
 ]
 ASSUMPTIONS = [
     "hooks raise Exception or AssertionError (KeyboardInterrupt / SystemExit inside a hook escape run_hook by design and are outside the property's fault model)",
-    "non-interference is decided by the oracle on real runs (fault-free vs faulted run of the same program); the Coq theorems give the per-element trace shape and the marking of the element",
+    "the non-interference theorem is stated for runs without --stop, without aborting steps (KeyboardInterrupt / abort_by_user) and with a before_all that does not raise; those cases are the property's own exceptions and have their own theorems",
 ]
 RULE = ("for each seeded random program: the fault-free run, then EVERY hook invocation of that run taken as injection point "
         "(Exception / AssertionError alternating), plus pairs in the thorough tier; with tag selection, --stop and dry-run "
@@ -19,9 +19,13 @@ RULE = ("for each seeded random program: the fault-free run, then EVERY hook inv
 LEVEL_TEXT = ("Theorems over Runner.v for every program and EVERY fault set: the hook trace of a step / scenario / rule / feature / "
               "run is before_tag* before_X <contents> after_X after_tag* with the closing half unconditional, hook_failed of an "
               "element <-> one of its own sites raised, a raising opening hook empties the body, any raising hook fails the run, "
-              "before_all fault aborts, no hooks in dry-run / for de-selected elements.  Fault enumeration over every hook "
-              "invocation of real runs checks bracket matching, containment and non-interference against the fault-free run.")
-LEVEL_NOTE = "Trusted: Coq kernel, renderer/decoder. Non-interference between sibling elements is oracle-checked (not a theorem yet)."
+              "before_all fault aborts, no hooks in dry-run / for de-selected elements.  Non-interference (RunnerLocal.v): for ANY two "
+              "fault sets, an element none of whose own hook sites is affected has the same result in both runs, children of an "
+              "element whose own hooks are unaffected are related in the same way (only the affected element, its ancestors and "
+              "descendants may differ); every scenario / rule / feature hands the runner state back unchanged.  Fault enumeration "
+              "over every hook invocation of real runs checks bracket matching, containment and non-interference against the "
+              "fault-free run.")
+LEVEL_NOTE = "Trusted: Coq kernel, renderer/decoder."
 
 
 def parse_brackets(log):
